@@ -34,6 +34,7 @@ def pkgEOps : List (String × Op) := [
       let y : Int ← arg j "y"; let m : Nat ← arg j "m"; let d : Nat ← arg j "d"
       pure (toJson (daysOfCivil { year := y, month := m, day := d }))),
   ("skr_to_xml", fun j => do let r : Response ← arg j "response"; pure (toJson (skrToXml r))),
+  ("writer_domain", fun j => do let r : Response ← arg j "response"; pure (toJson (writerDomain r))),
   ("skr_tree", fun j => do
       let r : Response ← arg j "response"
       pure (Json.mkObj [("tree", xtreeToJson (treeOf r)), ("render", String.ofList (renderDoc (treeOf r)))]))
